@@ -159,11 +159,11 @@ def min : STree E → Option E
   | .leaf v => some v
   | .node _ v child _ => if isEmpty child then some v else min child
 
-/-- `max` (set.sam:354) — the recursive call in the source is `child.min()`. -/
+/-- `max` (set.sam:354) (the recursive call was `child.min()` before fix C18-F1). -/
 def max : STree E → Option E
   | .empty => none
   | .leaf v => some v
-  | .node _ v _ child => if isEmpty child then some v else min child
+  | .node _ v _ child => if isEmpty child then some v else max child
 
 /-- `removeMin` (set.sam:361) -/
 def removeMin : STree E → Option (STree E)
@@ -274,16 +274,16 @@ def intersection (cmp : E → E → Int) : STree E → STree E → Option (STree
           | none => none
           | some c => if b then join a v1 c else concat a c
 
-/-- `diff` (set.sam:140) — the `(_, Empty)` arm returns `other` in the source. -/
+/-- `diff` (set.sam:140) (the `(_, Empty)` arm returned `other` before fix C18-F5). -/
 def diff (cmp : E → E → Int) : STree E → STree E → Option (STree E)
   | .empty, _ => some .empty
   | .leaf v, other =>
     match other with
-    | .empty => some .empty
+    | .empty => some (.leaf v)
     | _ => if contains cmp other v then some .empty else some (.leaf v)
-  | .node _ v1 l1 r1, other =>
+  | .node h v1 l1 r1, other =>
     match other with
-    | .empty => some .empty
+    | .empty => some (.node h v1 l1 r1)
     | _ =>
       match split cmp other v1 with
       | none => none
@@ -326,11 +326,11 @@ def subset (cmp : E → E → Int) : Nat → STree E → STree E → Option Bool
         | some false => some false
         | some true => subset cmp fuel l1 other
 
-/-- `internalMerge` (set.sam:181) — both `Empty` arms return `Set.empty()` in the source. -/
+/-- `internalMerge` (set.sam:181) (both `Empty` arms returned `Set.empty()` before fix C18-F4). -/
 def internalMerge (this other : STree E) : Option (STree E) :=
   match this, other with
-  | .empty, _ => some .empty
-  | _, .empty => some .empty
+  | .empty, _ => some other
+  | _, .empty => some this
   | _, _ =>
     match min other with
     | none => none
@@ -375,9 +375,9 @@ def forAll (f : E → Bool) : STree E → Bool
   | .leaf v => f v
   | .node _ v l r => f v && forAll f l && forAll f r
 
-/-- `exists` (set.sam:304) — the `Empty` arm is `true` in the source. -/
+/-- `exists` (set.sam:304) (the `Empty` arm was `true` before fix C18-F2). -/
 def «exists» (f : E → Bool) : STree E → Bool
-  | .empty => true
+  | .empty => false
   | .leaf v => f v
   | .node _ v l r => f v || «exists» f l || «exists» f r
 
